@@ -1550,6 +1550,14 @@ def run(rep):
     for sig, cnt in known_main.items():
         rep.notes.append("%d main-stream programs matched the signature of known finding %s" % (cnt, sig))
 
+    if not quick and cq["ok"]:
+        with common.Lock("coq"):
+            rc, o, e = common.sh(["coqchk", "-silent", "-o", "-Q", ".", "Cb", "Cb.C11.Properties_C11"], cwd=common.COQ, timeout=1200)
+        m = re.search(r"\* Axioms:\s*(.*?)\n\s*\n", o + "\n\n", re.S)
+        rep.coverage["coqchk"] = {"rc": rc, "axioms": (m.group(1).strip() if m else "?")}
+        if rc != 0:
+            rep.violation("coqchk", {"log": (o + e)[-2000:]}, "coqchk rejects the compiled closure of Properties_C11", True)
+        lap("coqchk")
     hist.update({"prog-" + k: v for k, v in fam_hist.items()})
     rep.coverage.update({
         "evaluations": len(reqs) + real_inst + 2 * len(demanded) + 2 * len(sample),
